@@ -103,6 +103,12 @@ struct Ctx : ICtx {
         j.key("pos"); j.begin_arr();
         for (size_t i = 0; i < m.n_vertices(); ++i) { auto const &p = m.vertex(VertexHandle((int)i)); j.begin_arr(); for (int k = 0; k < 3; ++k) j.val((long long)p[(size_t)k]); j.end_arr(); }
         j.end_arr();
+        // one upward circulator per incidence kind: valid at construction?  (a const query must not change that)
+        j.key("up"); j.begin_arr();
+        j.val(m.n_vertices() > 0 ? (bool)m.voh_iter(VertexHandle(0)).valid() : false);
+        j.val(m.n_halfedges() > 0 ? (bool)m.hehf_iter(HalfEdgeHandle(0)).valid() : false);
+        j.val(m.n_cells() > 0 ? (bool)m.cc_iter(CellHandle(0)).valid() : false);
+        j.end_arr();
         j.key("rp"); j.begin_obj();
         j.key("vi"); j.begin_arr(); for (auto x : p_vi->data_vector()) j.val((long long)x); j.end_arr();
         j.key("ed"); j.begin_arr(); for (auto x : p_ed->data_vector()) { char b[40]; snprintf(b, sizeof b, "%.17g", x); j.val(std::string(b)); } j.end_arr();
@@ -365,9 +371,19 @@ template <class MeshT> static void add_polymix(MeshT &m, const std::string &n) {
     m.add_edge(VertexHandle(11), VertexHandle(12)); // dangling edge; vertex 13 is isolated
 }
 
-std::unique_ptr<ICtx> make_ctx(const std::string &name) {
+// "<base>#<v><e><f>": the base mesh with the bottom-up incidence kinds whose digit is 0 disabled before any reader starts
+std::unique_ptr<ICtx> make_ctx(const std::string &fullname) {
     std::unique_ptr<ICtx> r;
-    auto finish = [&](auto *c, const char *type) { c->name = name; c->type = type; c->box.type = type; c->make_props(); r.reset(c); };
+    std::string name = fullname, cfg = "111";
+    auto hash = fullname.find('#');
+    if (hash != std::string::npos) { name = fullname.substr(0, hash); cfg = fullname.substr(hash + 1); }
+    if (cfg.size() != 3) { fprintf(stderr, "readers_exec: bad incidence configuration in %s\n", fullname.c_str()); exit(3); }
+    auto finish = [&](auto *c, const char *type) {
+        c->name = fullname; c->type = type; c->box.type = type; c->make_props();
+        if (cfg[0] == '0') c->mesh->enable_vertex_bottom_up_incidences(false);
+        if (cfg[1] == '0') c->mesh->enable_edge_bottom_up_incidences(false);
+        if (cfg[2] == '0') c->mesh->enable_face_bottom_up_incidences(false);
+        r.reset(c); };
     if (name == "tet1") { auto *c = new Ctx<GeometricTetrahedralMeshV3d>(); auto &m = *c->mesh; using P = Vec3d;
         m.add_vertex(P(0, 0, 0)); m.add_vertex(P(2, 0, 0)); m.add_vertex(P(0, 2, 0)); m.add_vertex(P(0, 0, 2));
         if (!m.add_cell(VertexHandle(0), VertexHandle(1), VertexHandle(2), VertexHandle(3), true).is_valid()) build_failed(name, "add_cell");
